@@ -165,7 +165,7 @@ def run_tlc(module, cfg_text, *, workers=16, env=None, extra=(), timeout=3600, c
 
 _RE_STATES = re.compile(r"(\d+) states generated, (\d+) distinct states found")
 _RE_DEPTH = re.compile(r"The depth of the complete state graph search is (\d+)")
-_RE_COV = re.compile(r"^<(\w+) line \d+, col \d+ to line \d+, col \d+ of module (\w+)>: (\d+):(\d+)", re.M)
+_RE_COV = re.compile(r"^<(\w+) line \d+, col \d+ to line \d+, col \d+ of module (\w+)(?: \([\d ]+\))?>: (\d+):(\d+)", re.M)
 _RE_VIOL = re.compile(r"Error: (?:Invariant|Action property|Temporal properties) ?(\w+)? (?:is|were) violated")
 
 
@@ -177,8 +177,9 @@ def parse_tlc(out):
     m = _RE_DEPTH.search(out)
     if m:
         r.depth = int(m.group(1))
-    for m in _RE_COV.finditer(out):
-        r.coverage[m.group(1)] = (int(m.group(3)), int(m.group(4)))
+    for m in _RE_COV.finditer(out):      # several sub-actions may share a name (disjuncts of Next): add them up
+        d0, t0 = r.coverage.get(m.group(1), (0, 0))
+        r.coverage[m.group(1)] = (d0 + int(m.group(3)), t0 + int(m.group(4)))
     m = _RE_VIOL.search(out)
     if m:
         r.violated = m.group(1) or "property"
@@ -198,6 +199,15 @@ def tlc_ok(res, what):
         raise MachineryError(f"TLC failed on {what}: {res.error[:1500]}")
     if res.rc not in (0,) and not res.violated:
         raise MachineryError(f"TLC exit {res.rc} on {what}: {res.out[-1500:]}")
+
+
+def require_actions(res, names, what):
+    """vacuity guard: every named action of the specification must have been taken at least once"""
+    for n in names:
+        if n not in res.coverage:
+            raise MachineryError(f"{what}: no coverage reported for action {n}")
+        if res.coverage[n][1] == 0:
+            raise MachineryError(f"{what}: action {n} was never taken - the properties that depend on it were not exercised")
 
 
 def unquote(line):
